@@ -207,7 +207,8 @@ def _resolve_fname(example_fname='!data/example.gb'):
                         # fl = io.StringIO(r.text)  # download is just data
                         fl = io.BytesIO(r.content)  # download is just data
                 elif _isglob and glob.has_magic(fname):  # it's a glob expression
-                    fnames = glob.glob(fname, recursive=True)
+                    # directories matching the pattern are not files to read (e.g. an archive holding v1.0/seqs.fa)
+                    fnames = [fn for fn in glob.glob(fname, recursive=True) if not os.path.isdir(fn)]
                     if not fnames:
                         raise IOError(f'No file matching glob pattern {fname}')
                     # run function with all individual files
